@@ -166,7 +166,7 @@ CHECKS['C16'] = dict(
          'roots = fonts {S-min, S-full, S-full compressed, small.ttf} (thorough + Padauk) x faceOptions {0,2,4,6,7} x {release fn, no release fn}; operations = make font, 12 gr_make_seg variants (3 texts x dir x font/NULL), featureval_for_lang (default / language), clone, '
          'feature label in 3 encodings, value label, justify, linebreak, is_char_supported, full face dump, and destroy of every live object in every order that respects ownership (fonts/segments before the face; feature values and labels may outlive it); depth 5 (thorough 7), '
          'deduplicated on (live objects with parameters, outstanding borrows); every history is replayed on a fresh world and closed by destroying the rest in a legal order. Invariants after every operation: no foreign/double release, no get_table after load with preloadAll, ASan silence; at quiescence: no outstanding borrow, allocation balance zero. '
-         'Environment deviations: every table x {NULL, length 0, length 3} x options 0..7 x {release, no release}: outstanding set empty when gr_make_face returns NULL. Rejecting fonts: S-full with ONE unreadable glyph (outline box xMin > xMax; two positions) x options 0..7 x {release, no release}: preloading creation fails after the glyph loader borrowed its tables, lazy faces load and meet the glyph while shaping: same borrow invariants and allocation balance',
+         'Environment deviations: every table x {NULL, length 0, length 3} x options 0..7 x {release, no release}: outstanding set empty when gr_make_face returns NULL. Rejecting fonts: S-full with ONE unreadable glyph (outline box xMin > xMax; two positions) x options 0..7 x {release, no release}: preloading creation fails after the glyph loader borrowed its tables, lazy faces load and meet the glyph while shaping: same borrow invariants and allocation balance. File face: gr_make_file_face on 5 (thorough 7) fonts x options 0..7 x {whole file, cut to 3/4, 1/2, 12 bytes, empty, missing}: create, shape, query labels and features, destroy; allocation balance zero and no file descriptor left open, also after a failed creation',
     state_meaning='states = distinct (live objects, outstanding borrows) configurations; transitions = API operations executed on real objects, invariants evaluated after each',
     level_text='Explicit-state BFS over API histories against an environment model of the table callbacks (fresh copies, strict bookkeeping), invariants in every state, plus exhaustive single-table environment deviations.',
     level_note='Trusted: environment model (src/common/memface.hpp), ASan use-after-free detection on released copies, allocator statistics for the balance. Object multiplicities are bounded (1 face, 1 font, 2 segments, 2 feature values, 1 label).',
